@@ -13,7 +13,7 @@
    of to_packets (a response whose records do not fit in 8972 bytes loses the records that do
    not fit; the generators stay far below it). *)
 From Coq Require Import List NArith Bool.
-From Mdns Require Import Res Bytes Rec Intf ParamsResponder.
+From Mdns Require Import Res Bytes Rec Wire Intf ParamsResponder.
 Import ListNotations.
 Open Scope N_scope.
 
@@ -292,3 +292,15 @@ Definition handle_query (inp : hq_input) : option packet :=
    decoding, dispatch of queries.  `lookup` gives my_intfs.get(if_index). *)
 Definition family_enabled (intf : myintf) (is_ipv4 : bool) : bool :=
   if is_ipv4 then has_v4 intf else has_v6 intf.
+
+(* handle_read after the interface lookup: a datagram of a family that has no address on the
+   interface is dropped; a datagram that does not decode is dropped; only queries get here *)
+Definition handle_datagram (services : list entry) (nc : list (bytes * bytes)) (intf : myintf)
+    (src_ip : ip) (src_port : N) (d : bytes) : option packet :=
+  if negb (family_enabled intf (is_v4 src_ip)) then None
+  else match decode d with
+       | Ok m => if N.land (m_flags m) 32768 =? 0
+                 then handle_query (mkHq services nc intf m src_ip src_port)
+                 else None
+       | _ => None
+       end.
